@@ -1130,6 +1130,9 @@ def run_files(case, ctx):
 
 
 # --------------------------------------------------------------------------- tests
+# libFuzzer executions per shard and @given test of the coverage-guided extra of the thorough tier (vp/fuzz.py)
+FUZZ = 2000
+
 TESTS = [
     Test('machine', _run_machine, machine=machine_factory,
          examples={'quick': 1800, 'thorough': 30000}, steps={'quick': 16, 'thorough': 40}),
